@@ -1252,7 +1252,18 @@ fn vi_undo_keys(rng: &mut Rng, insert_mode: &mut bool, out: &mut Vec<String>) {
                     out.push("1f".to_string());
                 }
             }
-            70..=77 => out.push(rng.pick(&["7f", "08", "17", "15", "19"]).to_string()),
+            70..=75 => out.push(rng.pick(&["7f", "08", "17", "15", "19"]).to_string()),
+            76..=79 => {
+                // a grouped command that changes nothing (C-t on fewer than two clusters, a search
+                // that finds nothing, left with C-g): an EMPTY group inside the open session
+                if rng.chance(1, 2) {
+                    out.push("14".to_string());
+                } else {
+                    out.push("12".to_string());
+                    out.push("71".to_string());
+                    out.push("07".to_string());
+                }
+            }
             _ => {
                 // leave insert mode: ESC glued to a command key
                 let c = *rng.pick(b"hb0ulxhb0");
@@ -1410,7 +1421,11 @@ fn random_helper(rng: &mut Rng, flags: &mut String, profile: Profile, cols: u16)
     if profile == Profile::Complete || rng.chance(2, 3) {
         let k = if profile == Profile::Complete { 1 + rng.below(4) } else { rng.below(4) };
         let mut cands: Vec<String> =
-            (0..k).map(|_| rng.pick(&["ab", "abc", "abé", "b", "", "a b", "aZ", "漢a"]).to_string()).collect();
+            (0..k)
+                .map(|_| {
+                    rng.pick(&["ab", "abc", "abé", "b", "", "a b", "aZ", "漢a", "漢ab", "éc", "éco", "écoute", "abé"]).to_string()
+                })
+                .collect();
         if cols <= 20 && rng.chance(1, 4) {
             // candidates about as wide as the terminal (the listing's column arithmetic)
             for _ in 0..(1 + rng.below(2)) {
